@@ -189,6 +189,9 @@ def main():
         "exhaustive": bool(res.get("exhaustive", False)),
         "translator": gen_msg,
     }
+    for opt in ("states", "transitions"):
+        if opt in res:
+            cov[opt] = res[opt]
     common.write_evidence(pid, {
         "property_id": pid, "tier": a.tier, "seed": seed, "level": "proof",
         "coverage": cov, "assumptions": mod.TRUSTED, "wall_s": round(wall, 2), "violations": len(violations) + (1 if (broken and not violations) else 0),
